@@ -378,13 +378,34 @@ def encode_cms(c, o):
 
 
 # --------------------------------------------------------------------------- HyperLogLog
+HLL_UNIVERSE = 96            # enough distinct items to touch every register of a precision-4..6 sketch
+
+
+def hobj(i):
+    return ITEMS[i] if i < len(ITEMS) else f"item-{i}"
+
+
 SEEDS = [None, 0, 5]          # seed ids 0,1 are the same configuration (None -> 0); id 2 differs
 
 
 def gen_hll(rng):
-    n_items = rng.randint(1, len(ITEMS))
     p = rng.choice([4, 4, 4, 5, 6])
-    ops = slot_schedule(rng, n_items, max_len=16 if p == 4 else 8, extra=4, n_slots=4)
+    n_items = rng.choice([2, 12, HLL_UNIVERSE, HLL_UNIVERSE])
+    length = rng.choice([0, 1, rng.randint(2, 40 if p == 4 else 14)])
+    s = [[rng.randrange(n_items), 1 if rng.random() < 0.8 else rng.choice([0, 2, -1, 3])] for _ in range(length)]
+    cut = rng.randint(0, len(s))
+    queues = [[["add", 0, x, c] for x, c in s[:cut]], [["add", 1, x, c] for x, c in s[cut:]],
+              [["add", 2, x, c] for x, c in s]]
+    ops = []
+    while any(queues):          # random interleaving that keeps each slot's stream order
+        q = rng.choice([q for q in queues if q])
+        ops.append(q.pop(0))
+    ops.append(["merge", 0, 1])
+    for _ in range(rng.randint(0, 4)):
+        if rng.random() < 0.5:
+            ops.append(["add", rng.randrange(4), rng.randrange(n_items), rng.choice([1, 1, 2, 0, -2])])
+        else:
+            ops.append(["merge", rng.randrange(4), rng.randrange(4)])
     slot_seed = [0, rng.choice([0, 1]), 0, 2]      # slot 3 is built with a different seed
     return dict(p=p, slot_seed=slot_seed, ops=ops)
 
@@ -403,7 +424,7 @@ def impl_hll(c):
         raised = False
         if o[0] == "add":
             try:
-                slots[o[1]].add(obj(o[2]), o[3])
+                slots[o[1]].add(hobj(o[2]), o[3])
                 streams[o[1]].append((o[2], o[3]))
             except ValueError:
                 raised = True
@@ -417,7 +438,7 @@ def impl_hll(c):
                 streams[o[1]] = streams[o[1]] + streams[o[2]]
                 ref = mk(o[1])
                 for x, cnt in streams[o[1]]:
-                    ref.add(obj(x), cnt)
+                    ref.add(hobj(x), cnt)
                 homo.append([o, _hll_state(slots[o[1]]), _hll_state(ref)])
             except ValueError:
                 raised = True
@@ -426,8 +447,8 @@ def impl_hll(c):
     table = []
     for sid in sorted(set(c["slot_seed"])):
         probe = HyperLogLog(precision=c["p"], seed=SEEDS[sid])
-        for x in range(len(ITEMS)):
-            table.append([eff(sid), x, probe._hash(obj(x))])
+        for x in sorted({o[2] for o in c["ops"] if o[0] == "add"}):
+            table.append([eff(sid), x, probe._hash(hobj(x))])
     return dict(obs=obs, table=table, homo=homo, seeds=[eff(sid) for sid in c["slot_seed"]])
 
 
@@ -1061,20 +1082,29 @@ TRUSTED = [
     "hash functions (sha256, builtin hash) and random.Random draws are explicit inputs of the model; theorems hold for every hash function / draw stream",
     "Merkle theorems assume injective, domain-separated leaf/inner hashes (sha256 collision freedom; leaf preimages contain ':' and inner preimages do not); values are compared by repr",
     "PrimFloat/PrimInt63 kernel primitives = CPython binary64 arithmetic (IEEE 754 round-to-nearest-even, correctly rounded sqrt); listed by Print Assumptions for c20_tdigest_float_*_refuted only; checked bit-exactly on every t-digest case",
-    "t-digest range clause is proved over exact rationals only (c20_tdigest_exact_range_partial); monotonicity in q is not proved, it is checked by the oracle on every generated digest",
+    "t-digest range and monotonicity clauses are proved over exact rationals (c20_tdigest_exact_*_partial) for every digest built by adds/flushes/merges; on binary64 both are refuted (known findings) and the oracle checks them with a 1e-9 relative rounding tolerance",
 ]
 
 
 def run(ctx):
     ctx.prove(PROOF_FILES, allowed_axioms=FLOAT_PRIMS, trusted_base=TRUSTED)
-    n = ctx.n(120, 3000)
+    n = ctx.n(60, 1000)
     fctx = FastCtx(ctx)
     stats = []
+    import os
+    only = os.environ.get("C20_FAMILIES")          # development aid: run a subset of the families
     for fam in FAMILIES:
+        if only and fam.name not in only.split(","):
+            continue
         stats.append(run_family(fctx, fam, max(1, int(n * WEIGHT.get(fam.name, 1.0)))))
         ctx.log(f"family {fam.name}: {stats[-1]['cases']} cases, mismatches={stats[-1]['mismatches']}, oracle_failures={stats[-1]['oracle_failures']}")
     merge_stats(ctx, stats, "random structured streams/schedules over a 12-item universe and tiny dimensions (forced collisions); non-trivial = at least one effective add; distinct by JSON of the input")
     ctx.finish_obligations()
+    ctx.assumptions += [
+        "t-digest: 'quantiles non-decreasing in q and within [min, max]' is refuted on the binary64 model (c20_tdigest_float_*_refuted, known findings C20-tdigest-*-rounding) and proved over exact rationals (c20_tdigest_exact_*_partial)",
+        "reservoir merge: size and membership proved (c20_reservoir_merge_size_partial), distinctness refuted (known finding C20-reservoir-merge-with-replacement)",
+        "Merkle theorems: leaf/inner hashes injective and domain separated (sha256 collision freedom); reservoir merge: random() in [0, 1)",
+    ]
 
 
 def replay(data):
